@@ -135,7 +135,7 @@ func (o Options) fromBytesCheckEnd(data []byte, checkEndOption bool) error {
 
 		// N bytes: option data
 		data := buf.Consume(length)
-		if data == nil {
+		if data == nil || buf.Error() != nil {
 			return fmt.Errorf("error collecting options: %v", buf.Error())
 		}
 		data = data[:length:length]
